@@ -5,45 +5,45 @@ import json, os, subprocess
 VERIF = os.path.dirname(os.path.dirname(os.path.abspath(__file__)))
 
 P = {
- "C01": ("4.C01", "reference-model monitor: full state sweep (component sets, values, targets through ID-based, Map[T], MapN and query paths) after every op of generated histories; checkptr/ASan/race builds",
+ "C01": ("4.C01", "reference-model monitor: full state sweep (component sets, values, targets through ID-based, Map[T], MapN and query paths) after every op of generated histories; checkptr/ASan/race builds; further job groups: scripted method matrix per typed tuple, 'scale' histories (3000 entities, hundreds of relation tables), boundary scenarios (table of 70000 rows, components of 64 KiB and more)",
          "Every alive entity is compared with a sequential reference model after every operation of thousands of generated histories that mix all op kinds, API paths, capacities down to 1 and component-ID placements up to ID 255. Held on what was generated; histories are bounded (150-600 ops)."),
- "C02": ("4.C02", "reference-model monitor over churn histories: every handle ever issued re-checked with Alive after every op, duplicate detection, alive count via Filter0/Stats",
+ "C02": ("4.C02", "reference-model monitor over churn histories: every handle ever issued re-checked with Alive after every op, duplicate detection, alive count via Filter0/Stats; rejected calls (misuse rows) must not consume a handle; dump/load worker with sibling worlds; boundary scenarios (256+ targets removed in one batch, one ID recycled 70000 times)",
          "Exploration of pool recycling orders (pools of 1-24 IDs, LIFO/FIFO/random, batch and single, Reset). Generation wrap-around (2^32 recycles) is out of reach."),
- "C03": ("4.C03", "query comparer against the model's result set: sampled UnsafeFilter / Filter0 / FilterN (arity 1-8) with With/Without/Exclusive/relation targets incl. dead targets; Count, EntityAt, pointer identity, GetRelation",
+ "C03": ("4.C03", "query comparer against the model's result set: sampled UnsafeFilter / Filter0 / FilterN (arity 1-8) with With/Without/Exclusive/relation targets incl. dead targets; Count, EntityAt, pointer identity, GetRelation; job groups: method matrix, second world with other component IDs sharing the relation argument lists; boundary scenario with 66000 relation tables",
          "Every query result is compared as a multiset with the model; filters are sampled (4 per sweep), not enumerated."),
- "C04": ("4.C04", "reference-model monitor with relation-heavy histories: target zero-or-alive asserted for every relation of every entity after every op; panics on valid calls are violations",
+ "C04": ("4.C04", "reference-model monitor with relation-heavy histories: target zero-or-alive asserted for every relation of every entity after every op; panics on valid calls are violations; job groups: 'scale' histories, second world with other component IDs sharing relation argument lists; rejected calls in between",
          "Exploration of target death orders (single, batch, batch with children, two targets of one table), table recycling, Shrink/Reset interleaved."),
- "C05": ("4.C05", "cached-twin monitor: each registered filter has an unregistered twin, both compared with the model and each other after every op; batch ops and open queries use either instance",
+ "C05": ("4.C05", "cached-twin monitor: each registered filter has an unregistered twin, both compared with the model and each other after every op; batch ops and open queries use either instance; standing filters serve a Batch(rel) call before their first query, overlapping queries of one filter object; boundary scenario: 66000 registrations in one world",
          "Differential exploration; registration/unregistration at arbitrary points incl. while queries are open."),
- "C06": ("4.C06", "batch monitor (callback exactly once per selected entity, pointer identity, lock) + lockstep twin world executing the per-entity ID-based operations, both swept against the model",
+ "C06": ("4.C06", "batch monitor (callback exactly once per selected entity, pointer identity, lock) + lockstep twin world executing the per-entity ID-based operations, both swept against the model; second job group: scripted method matrix (every batch method of every arity into empty and populated tables)",
          "Differential exploration over all seven batch operations with cached and uncached filters and relation targets."),
- "C07": ("4.C07", "lock monitor: IsLocked vs model after every op with up to 64 open queries (typed, unsafe, cached), rejected structural calls (22 kinds) must panic and leave the swept state unchanged",
+ "C07": ("4.C07", "lock monitor: IsLocked vs model after every op with up to 64 open queries (typed, unsafe, cached), rejected structural calls (22 kinds) must panic and leave the swept state unchanged; query-object misuse rows also run while other queries are open (Close of a finished query must not panic); second job group: race worker (2-64 goroutines, -race); scenarios: 70000 queries, rejected 65th query (once and 300 times)",
          "Exploration of open/step/exhaust/close interleavings; every lock-bit recycle order reached is a permutation of closes drawn at random."),
- "C08": ("4.C08", "observer oracle: three-valued expectation (must / must not / may) per (observer, op, entity) computed from the observer spec and the op's transition, compared with the observed callbacks",
+ "C08": ("4.C08", "observer oracle: three-valued expectation (must / must not / may) per (observer, op, entity) computed from the observer spec and the op's transition, compared with the observed callbacks; observers unregister others and register fresh ones from inside callbacks; observer objects reused after service in another world; typed observers of all arities; boundary scenario (300 observers, 70000 registrations)",
          "Exploration over random observer sets (7 slots, generic and typed) and all op kinds; independence from other observers follows because the expectation is computed per observer."),
  "C09": ("4.C09", "in-callback probes: inside every probed observer callback the entity is alive, affected, seen exactly once by queries, in pre-state (removals) or post-state (others), batch peers likewise, lock state as documented",
          "Exploration; probes run real queries inside callbacks."),
- "C10": ("4.C10", "enumerated misuse table (246 rows x 4 stale-handle kinds) fired at random points of generated histories: must panic, then full sweep + Stats().Entities.Used prove no effect",
+ "C10": ("4.C10", "enumerated misuse table (298 rows x 4 stale-handle kinds) fired at random points of generated histories: must panic, then full sweep + Stats().Entities.Used prove no effect; filter-state rows (registered filters cannot be modified), new-archetype rows, batch rows over registered filters; per-archetype Stats figures compared around rejected calls where Stats monitoring is on",
          "Every exported checked entity-taking operation of every arity, through dead / recycled / doubly-dead / zero handles, plus duplicate add, missing remove, empty lists, missing and dead relation targets, structural ops on a locked world."),
- "C11": ("4.C11", "sanitizers: checkptr + ASan builds; GC as a sanitizer (GOGC=1, gccheckmark, clobberfree, background allocation, forced GCs) with pointee contents decoded after every op; finalizer-based collectability monitor; zero check after every uninitialised add",
+ "C11": ("4.C11", "sanitizers: checkptr + ASan builds; GC as a sanitizer (GOGC=1, gccheckmark, clobberfree, background allocation, forced GCs) with pointee contents decoded after every op; finalizer-based collectability monitor; zero check after every uninitialised add; scenario G1: finished queries must not pin abandoned column arrays (finalizer based, every typed tuple with a pointer-bearing component)",
          "Memory/GC safety held on the executions produced; the GC schedule is sampled."),
- "C12": ("4.C12", "trace digests: same case list executed in 4-8 separate processes and by two worlds in lockstep inside each; digest chain over handles, panics, iteration orders (cached and uncached) and Stats()",
+ "C12": ("4.C12", "trace digests: same case list executed in 4-8 separate processes and by two worlds in lockstep inside each; digest chain over handles, panics, iteration orders (cached and uncached) and Stats(); relation argument lists built with Rel/RelIdx live as long as the process and are handed to later worlds; standing-filter comparisons (Count, EntityAt) every 8th op; dump/load worker with sibling worlds",
          "Differential exploration across processes (hash seeds, heap layouts)."),
- "C13": ("4.C13", "Go race detector over a barrier-started concurrent query workload (2..64 goroutines, shared and private filters, cached and uncached, targets) + per-goroutine comparison with the frozen model",
+ "C13": ("4.C13", "Go race detector over a barrier-started concurrent query workload (2..64 goroutines, shared and private filters, cached and uncached, targets) + per-goroutine comparison with the frozen model; registered and unregistered collision filters queried first by all goroutines; scenario: 300 rejected queries while 64 are open",
          "Race-freedom decided by happens-before on the executions produced; exactness by comparison with the model."),
- "C14": ("4.C14", "scripted method matrix per instantiated tuple (Map1-12, Filter0-8, Query0-8, Exchange1-8, Observer1-4) + lockstep ID-based twin world; pointer identity of every Get/callback pointer with Unsafe.Get; coverage floor: every generated method >= 10 calls",
+ "C14": ("4.C14", "scripted method matrix per instantiated tuple (Map1-12, Filter0-8, Query0-8, Exchange1-8, Observer1-4) + lockstep ID-based twin world; pointer identity of every Get/callback pointer with Unsafe.Get; coverage floor: every generated method >= 10 calls; second job group: second typed world with other component IDs sharing the world-independent argument objects; generic observers watch the matrix of every arity",
          "Exploration with a measured per-(type, method) coverage floor; 57 type tuples are instantiated, not all."),
- "C15": ("4.C15", "reference-model + query + cached-twin monitors after every Shrink and every later op; capacity bounds from Stats() after unbounded Shrink; convergence of Shrink(0) counted in calls",
+ "C15": ("4.C15", "reference-model + query + cached-twin monitors after every Shrink and every later op; capacity bounds from Stats() after unbounded Shrink; convergence of Shrink(0) counted in calls; second job group 'bulk': whole tables created, emptied, shrunk and refilled (capacities 64-256, batches of up to 150, creations without initial values)",
          "Exploration of Shrink positions in relation- and cache-heavy histories."),
- "C16": ("4.C16", "reference-model monitor across Reset: the model restarts empty, every later op is judged as on a fresh world; old observers must stay silent, old filters/observers re-register; Stats figures",
+ "C16": ("4.C16", "reference-model monitor across Reset: the model restarts empty, every later op is judged as on a fresh world; old observers must stay silent, old filters/observers re-register; Stats figures; dump/load worker: every loaded world is reset and used again",
          "Exploration of (history, Reset, history) pairs incl. observers of every event type, resources, free tables, recycled IDs."),
- "C17": ("4.C17", "dump/load differential: Alive of every handle, lockstep creations/removals in source and loaded world; codec round trips over boundary + random pairs; malformed lengths",
+ "C17": ("4.C17", "dump/load differential: Alive of every handle, lockstep creations/removals in source and loaded world; codec round trips over boundary + random pairs; malformed lengths; loads preceded by a rejected attempt on the locked target; kept and scribbled encodings; pre-Reset handles inside the loaded pool's capacity; Reset after load",
          "Exploration of free-list shapes; codecs exhaustive over an 11x11 boundary set."),
- "C18": ("4.C18", "registration sequences enumerated over every count 0..max in both mask widths; entities/queries at every word boundary and at the last ID; rejected registrations must not consume IDs; resources vs map model",
+ "C18": ("4.C18", "registration sequences enumerated over every count 0..max in both mask widths; entities/queries at every word boundary and at the last ID; rejected registrations must not consume IDs; resources vs map model; generic late types used through Map/Map1/Filter1 right after registration in mid-history; second world with other IDs; interface-typed resources",
          "Counts are enumerated exhaustively, orders and type shapes sampled."),
- "C19": ("4.C19", "stats rules evaluated every 3rd op + replay twin: a fresh world replays the op prefix, asks Stats() once, must render identically to the incrementally maintained one",
+ "C19": ("4.C19", "stats rules evaluated every 3rd op + replay twin: a fresh world replays the op prefix, asks Stats() once, must render identically to the incrementally maintained one; Stats() rules inside batch and observer callbacks; content figures of every archetype compared around rejected calls; dump/load worker (entity statistics of loaded worlds)",
          "Exploration; memory figures are checked as the documented products/sums."),
- "C20": ("4.C20", "four builds {-, ark_tiny, ark_debug, both} run the same case list; digest chains (handles, which calls panic, iteration orders, Stats) must be identical; debug-guarded misuse patterns must panic in every build",
+ "C20": ("4.C20", "four builds {-, ark_tiny, ark_debug, both} run the same case list; digest chains (handles, which calls panic, iteration orders, Stats) must be identical; debug-guarded misuse patterns must panic in every build; rows for copies of query values and for every query arity (any tuple)",
          "Differential exploration within 64 component types."),
 }
 
@@ -78,7 +78,7 @@ def main():
         engines=[dict(name="harness", path="/verif/harness", serves_properties=sorted(P),
                       kind_free_text="Go module: reference model + op language + driver + monitors (eng), generated typed wrappers (typed), workers (cmd/*); python orchestrator (tools/orch.py)")],
         checks=checks,
-        notes="All 20 properties are claimed at level 'exploration' (runtime monitoring). 13 genuine defects were found and repaired by 'fix:' commits in /repo (KNOWN_FINDINGS.txt); none is recorded as known.",
+        notes="All 20 properties are claimed at level 'exploration' (runtime monitoring). 35 genuine defects (F1-F35) were found and repaired by 'fix:' commits in /repo; one (K1, C17) is recorded as a known finding (KNOWN_FINDINGS.txt, DESIGN.md section 5). 240 seeded changes are kept under seeded/ with the check that detects each (DESIGN.md section 7).",
         not_applicable=[],
     )
     json.dump(m, open(os.path.join(VERIF, "MANIFEST.json"), "w"), indent=1)
